@@ -277,7 +277,7 @@ func Supervise(self, prop, tier, verifDir string, nshards int) int {
 			}
 		}
 		for k, v := range so.Viol {
-			if _, ok := m.Viol[k]; !ok {
+			if old, ok := m.Viol[k]; !ok || caseSize(v) < caseSize(old) {
 				m.Viol[k] = v
 			}
 		}
@@ -347,6 +347,11 @@ func Supervise(self, prop, tier, verifDir string, nshards int) int {
 	fmt.Printf("%s %s: evaluations=%d distinct_nontrivial=%d exhaustive=%v violations=%d known=%d wall=%.1fs\n",
 		prop, tier, m.Evals, m.Distinct, m.Exhaustive, newViol, len(knownSeen), time.Since(start).Seconds())
 	return exit
+}
+
+func caseSize(v *Violation) int {
+	b, _ := json.Marshal(v.Case)
+	return len(b)
 }
 
 func tail(s string, n int) string {
